@@ -110,9 +110,13 @@ pub fn openssl_csrs_with_keys(rng: &mut Rng, n: usize) -> Vec<(Base, PKey<Privat
 		let _ = b.set_version(0);
 		let mut exts = Stack::new().unwrap();
 		let mut what = Vec::new();
-		if rng.chance(2, 3) {
+		// planned requests (the supported pairings) always carry a SAN, with the otherName value type cycling
+		// deterministically, so that every supported pairing meets every value type at every seed
+		let planned = idx <= plan.len();
+		let planned_tag: Option<u8> = if planned { [None, Some(0x0cu8), Some(0x16), Some(0x13), Some(0x1e), Some(0x04)][((idx - 1) / 6 + (idx - 1)) % 6] } else { None };
+		if planned || rng.chance(2, 3) {
 			let mut s = SubjectAlternativeName::new();
-			if rng.chance(1, 6) {
+			if !planned && rng.chance(1, 6) {
 				// valid UTF-8 but not IA5: OpenSSL writes it unchecked
 				s.dns(&format!("m\u{fc}nchen.{}", gen_host(rng)));
 			} else {
@@ -127,10 +131,12 @@ pub fn openssl_csrs_with_keys(rng: &mut Rng, n: usize) -> Vec<(Base, PKey<Privat
 			if rng.chance(1, 4) {
 				s.uri("https://example.com/x");
 			}
-			if rng.chance(1, 3) {
+			let random_other = rng.chance(1, 3);
+			let random_tag = *rng.pick(&[0x0cu8, 0x0c, 0x16, 0x13, 0x1e, 0x04]);
+			if planned_tag.is_some() || (!planned && random_other) {
 				// otherName whose value is a UTF8String (what rcgen can represent) or another string type
 				// (SRVName is an IA5String): the request is refused, or the issued certificate says the same
-				let tag = *rng.pick(&[0x0cu8, 0x0c, 0x16, 0x13, 0x1e, 0x04]);
+				let tag = planned_tag.unwrap_or(random_tag);
 				let text: &[u8] = if tag == 0x1e { b"\0s\0r\0v" } else { b"srv.example-1" };
 				let mut val = vec![tag, text.len() as u8];
 				val.extend_from_slice(text);
